@@ -481,14 +481,27 @@ def loaderOpOf (gw : Option String) (cli : Bool) (j : Json) : Except String Load
     -- the IPFS node client is addressed by the path; its "origin" entries live under ipfs-node:<path>
     pure (.load sc (if sc == .ipfs && cli then "ipfs-node:" ++ path else u) gurl)
 
+/-- LoadDocument's scheme dispatch for the target of an alternate link (the same dispatch as for the URL of the load) -/
+def routeOf (gw : Option String) (cli : Bool) (u : String) : Loader.Route :=
+  match schemeOf u with
+  | .http => .http u
+  | .ipfs =>
+    let path := (u.drop 7).toString
+    if cli then .node ("ipfs-node:" ++ path)
+    else match gw with
+      | some g => if g != "" then .http (trimRightSlash g ++ "/ipfs/" ++ trimLeftSlash path) else .reject
+      | none => .reject
+  | .other => .reject
+
 def opLoaderRun (inp : Json) : Except String Json := do
   let (cfg, gw) ← loaderCfgOf (← inp.getObjVal? "cfg")
+  let route := routeOf gw cfg.ipfsClient
   let ops ← (← (← inp.getObjVal? "ops").getArr?).toList.mapM (loaderOpOf gw cfg.ipfsClient)
   -- run step by step to report the number of requests of each load
   let rec go : Loader.St → List Loader.Op → List Json → List Json
     | _, [], acc => acc.reverse
     | s, op :: rest, acc =>
-      let (s', r) := Loader.step cfg s op
+      let (s', r) := Loader.step cfg route s op
       let req := Json.num (s'.requests - s.requests)
       match r with
       | .none_ => go s' rest acc
